@@ -1,4 +1,4 @@
-CONSTANTS Handles = {0, 1}  Ids = {1, 2}  MaxOps = 4  MaxKeys = 4  Starts = {"plain", "both_in_txn"}  Kinds = {"insert", "update", "delete", "read", "drop"}
+CONSTANTS Handles = {0, 1}  Ids = {2}  MaxOps = 6  MaxKeys = 6  Starts = {"plain", "both_in_txn"}  Kinds = {"insert", "read"}
 SPECIFICATION Spec
 VIEW view
 INVARIANT SequentialWhenAutocommit SerialWhenAlone OwnWritesVisible RefNoDirtyRead RefNoLostUpdate
